@@ -69,12 +69,19 @@ class DataIndexView(BaseDataIndex):
                 self.value = args[0] if args else None
 
             def build(self, stack):
-                self.has_children = False
-                if not self.key or not shallow:
+                # NOTE: keys below a dir object are not taken from traverse(),
+                # which might have looked for them before, while or after the
+                # dir got loaded (by us, by the consumer or only partially by
+                # an interrupted process), but iterated in _load_dir_keys().
+                if not self.key or not (
+                    shallow or (ensure_loaded and _is_dir_obj(self.value))
+                ):
                     for child in self.children:
-                        self.has_children = True
                         stack.append(child)
                 return self.key, self.value
+
+        def _is_dir_obj(entry):
+            return bool(entry and entry.hash_info and entry.hash_info.isdir)
 
         def _node_factory(_, key, children, *args) -> Optional[_FilterNode]:
             return _FilterNode(key, children, *args)
@@ -92,10 +99,7 @@ class DataIndexView(BaseDataIndex):
                 key, value = node.build(stack)
                 if key and value:
                     yield key, value
-                    # NOTE: the dir might have been loaded by the consumer (and
-                    # not by us) after traverse() has looked for its keys, so
-                    # go by what traverse() has seen and not by entry.loaded.
-                    if ensure_loaded and not node.has_children:
+                    if ensure_loaded:
                         yield from self._load_dir_keys(key, value, shallow=shallow)
 
     def _load_dir_keys(
